@@ -76,7 +76,8 @@ CALLABLES_TOTAL = {'list.append': lambda: [].append, 'str.upper': lambda: 'x'.up
 FACTORIES = {'int': int, 'list': list, 'dict': dict, 'str': str, 'set': set, None: None}
 EXCEPTIONS = {n: getattr(__import__('builtins'), n) for n in
               ['Exception', 'ValueError', 'KeyError', 'TypeError', 'RuntimeError', 'OSError', 'StopIteration',
-               'KeyboardInterrupt', 'ZeroDivisionError', 'UnicodeError', 'AssertionError', 'LookupError']}
+               'KeyboardInterrupt', 'ZeroDivisionError', 'UnicodeError', 'AssertionError', 'LookupError',
+               'BaseException', 'SystemExit', 'GeneratorExit']}
 PATHS = {'PurePosixPath': pathlib.PurePosixPath, 'PureWindowsPath': pathlib.PureWindowsPath}
 PYTZ_ZONES = ['Europe/Helsinki', 'America/New_York', 'Asia/Kolkata', 'Australia/Lord_Howe', 'UTC', 'Etc/GMT+5',
               'Africa/Monrovia', 'Pacific/Apia', 'Etc/UTC', 'Zulu', 'UCT', 'Etc/Universal', 'GMT', 'Etc/GMT-14', 'Etc/Greenwich']
